@@ -654,10 +654,18 @@ class Coverage:
         arr = self.var
         call = alloc.value
         le = LinEval()
+        self.case_constraints = []
+        like = None
         if call.func.attr == "empty_like":
-            raise OutsideSubset("empty_like: shape not syntactically known")
+            like = LIKE_CONTRACTS.get((self.module, self.function, self.var))
+            if like is None or not (call.args and isinstance(call.args[0], ast.Name) and call.args[0].id == like["like"]):
+                raise OutsideSubset("empty_like: shape not syntactically known")
+            like_side = check_like_contract(like)  # the precondition is established by every producer in the package (AST, every run)
         shape_arg = call.args[0] if call.args else next((k.value for k in call.keywords if k.arg == "shape"), None)
-        if isinstance(shape_arg, ast.Tuple):
+        if like is not None:
+            dims = [le.size(like["lead"])]
+            open_ndim = False
+        elif isinstance(shape_arg, ast.Tuple):
             dims = [le.ev(e) for e in shape_arg.elts]
             open_ndim = False
         elif isinstance(shape_arg, ast.Name):
@@ -714,6 +722,8 @@ class Coverage:
                         if isinstance(t, ast.Subscript) and isinstance(root, ast.Name) and root.id == arr and guaranteed:
                             writes.append((st, loops, idx))
 
+        if like is not None:
+            return self.prove_spin_cases(le, dims, like, like_side, rest, collect, writes, side, alloc)
         proved_at = None
         detail = None
         for m in range(1, len(rest) + 1):
@@ -758,6 +768,48 @@ class Coverage:
                     raise OutsideSubset(f"the array is read at line {n.lineno} before the covering writes are complete")
         return Result(DISCHARGED, backend="z3", stats=dict(writes=len(writes), covering_statements=proved_at), side_conditions=list(side) or None,
                       detail=f"for all sizes: every index of `{arr}` (line {alloc.lineno}) is assigned by the following {proved_at} statement(s) before any read")
+
+    def prove_spin_cases(self, le, dims, like, like_side, rest, collect, writes, side, alloc):
+        """`h = xp.empty_like(dn_spin)` followed by `if [not] atoms.unrestricted: ... else: ...`: one coverage VC per spin treatment.
+        Pre-condition (sidecar, LIKE_CONTRACTS): the template array has `atoms.occ.Nspin` leading entries; class contract read from the AST on every
+        run: `Atoms.unrestricted` returns `self.occ.Nspin == 2`; assumed invariant of Occupations: Nspin is 1 or 2."""
+        arr = self.var
+        ifs = [st for st in rest if isinstance(st, ast.If) and _unrestricted_test(st.test) is not None]
+        if len(ifs) != 1 or not ifs[0].orelse:
+            raise OutsideSubset("no single if / else on atoms.unrestricted after the allocation")
+        st = ifs[0]
+        if any(isinstance(x, ast.Name) and x.id == arr for prev in rest[:rest.index(st)] for x in ast.walk(prev)):
+            raise OutsideSubset("the array is used before the case distinction")
+        check_unrestricted_property()
+        positive = _unrestricted_test(st.test)
+        nspin = le.size(like["lead"])
+        stats = {}
+        for label, branch, val in (("unrestricted", st.body if positive else st.orelse, 2), ("restricted", st.orelse if positive else st.body, 1)):
+            del writes[:]
+            collect(branch, [], True)
+            if not writes:
+                raise OutsideSubset(f"no store in the {label} branch")
+            self.case_constraints = [nspin == val]
+            ok, detail = self.vc(le, dims, False, None, writes)
+            self.case_constraints = []
+            if not ok:
+                if detail is not None and detail[0] == "model":
+                    info = detail[1]
+                    wit = dict(module=self.module, function=self.function, var=arr, index=info["index"], sizes=info["sizes"], case=label)
+                    okr, rinfo = poison_broad()
+                    return Result(REFUTED, backend="z3", witness=wit, replayed=okr, replay_info=rinfo, solver_output=info["model"],
+                                  detail=f"{self.module}.{self.function}: entry {info['index']} of `{arr}` is never assigned in the {label} case (uninitialised memory)")
+                raise OutsideSubset(f"{label} case: coverage not decided")
+            for b in branch:
+                for n in ast.walk(b):
+                    if isinstance(n, ast.Name) and n.id == arr and isinstance(n.ctx, ast.Load) and not _is_store_root(b, n):
+                        raise OutsideSubset(f"the array is read at line {n.lineno} inside the covering branch")
+            stats[label] = len(writes)
+        return Result(DISCHARGED, backend="z3", stats=dict(writes_per_case=stats),
+                      side_conditions=[f"pre-condition: `{like['like']}` has `{like['lead']}` leading entries - established by every producer of a `{like['like']}` in the package: " + like_side,
+                                       "class contract read from the AST: Atoms.unrestricted == (occ.Nspin == 2); assumed: Occupations.Nspin is 1 or 2",
+                                       "a caller outside the package that hands H() its own dn_spin keyword must respect the pre-condition (assumed)"],
+                      detail=f"for both spin treatments: every leading entry of `{arr}` (line {alloc.lineno}) is assigned in the taken branch before any read")
 
     def vc(self, le, dims, open_ndim, shape_arg, writes):
         nd = max(len([x for x in idx if not (isinstance(x, ast.Constant) and x.value is Ellipsis)]) for _, _, idx in writes)
@@ -825,6 +877,7 @@ class Coverage:
         s.set("timeout", 20000)
         for v in le.sizes.values():
             s.add(v >= 0)
+        s.add(*getattr(self, "case_constraints", []))
         s.add(*[z3.And(I[d] >= 0, I[d] < dims[d]) for d in range(len(dims))])
         s.add(z3.Not(z3.Or(*alts)))
         r = s.check()
@@ -864,6 +917,97 @@ def _enumerate_const_slice(st):
     if not (isinstance(st.target, ast.Tuple) and len(st.target.elts) == 2 and isinstance(st.target.elts[0], ast.Name)):
         return None
     return lo.value, hi.value
+
+
+LIKE_CONTRACTS = {
+    # (module, function, array): the template's leading dimension as the CALLERS establish it
+    ("eminus.gga", "gradient_correction", "h"): dict(like="dn_spin", lead="atoms.occ.Nspin", producer=("eminus.gga", "get_grad_field", "dfield")),
+}
+
+
+def _unrestricted_test(t):
+    """True for `atoms.unrestricted`, False for `not atoms.unrestricted`, None otherwise"""
+    if isinstance(t, ast.UnaryOp) and isinstance(t.op, ast.Not):
+        r = _unrestricted_test(t.operand)
+        return None if r is None else (not r)
+    if isinstance(t, ast.Attribute) and t.attr == "unrestricted" and isinstance(t.value, ast.Name) and t.value.id == "atoms":
+        return True
+    return None
+
+
+def _is_store_root(stmt, name_node):
+    for n in ast.walk(stmt):
+        if isinstance(n, ast.Assign):
+            for t in n.targets:
+                root, _ = _flatten_subscript(t)
+                if root is name_node and isinstance(t, ast.Subscript):
+                    return True
+    return False
+
+
+def check_unrestricted_property():
+    tree = ast.parse(source_of("eminus.atoms"))
+    for fname, fnode in _functions(tree):
+        if fname == "Atoms.unrestricted" and any(isinstance(d, ast.Name) and d.id == "property" for d in fnode.decorator_list):
+            rets = [n for n in ast.walk(fnode) if isinstance(n, ast.Return)]
+            if len(rets) == 1 and rets[0].value is not None and ast.unparse(rets[0].value).replace(" ", "") in ("self.occ.Nspin==2", "2==self.occ.Nspin"):
+                return
+            raise OutsideSubset("Atoms.unrestricted is no longer `self.occ.Nspin == 2`")
+    raise OutsideSubset("Atoms.unrestricted property not found")
+
+
+def check_like_contract(like):
+    """Every value bound to a name / attribute / keyword called like['like'] anywhere in the package is None, a parameter, or the result of the
+    producer, whose returned array is allocated with like['lead'] as its first dimension (and covered: its own full_init obligation)."""
+    pm, pf, pv = like["producer"]
+    name = like["like"]
+    ptree = ast.parse(source_of(pm))
+    pnode = dict(_functions(ptree)).get(pf)
+    if pnode is None:
+        raise OutsideSubset(f"producer {pm}.{pf} not found")
+    allocs = [n for n in ast.walk(pnode) if isinstance(n, ast.Assign) and len(n.targets) == 1 and isinstance(n.targets[0], ast.Name) and n.targets[0].id == pv
+              and isinstance(n.value, ast.Call) and _is_empty_call(n.value)]
+    if len(allocs) != 1 or not (allocs[0].value.args and isinstance(allocs[0].value.args[0], ast.Tuple) and _dotted(allocs[0].value.args[0].elts[0]) == like["lead"]):
+        raise OutsideSubset(f"{pf}: `{pv}` is not allocated with leading dimension {like['lead']}")
+    if sum(1 for n in ast.walk(pnode) if isinstance(n, ast.Name) and n.id == pv and isinstance(n.ctx, ast.Store)) != 1:
+        raise OutsideSubset(f"{pf}: `{pv}` is re-bound")
+    for r in (n for n in ast.walk(pnode) if isinstance(n, ast.Return)):
+        v = r.value
+        if isinstance(v, ast.Call) and _dotted(v.func) in ("xp.real", "xp.asarray") and len(v.args) == 1:
+            v = v.args[0]
+        if not (isinstance(v, ast.Name) and v.id == pv):
+            raise OutsideSubset(f"{pf} returns something else than `{pv}` (line {r.lineno})")
+    sites = 0
+    for modname, path in package_modules():
+        tree = ast.parse(path.read_text())
+        for n in ast.walk(tree):
+            if not isinstance(n, ast.Assign):
+                continue
+            for t in n.targets:
+                elts = t.elts if isinstance(t, ast.Tuple) else [t]
+                for k, e in enumerate(elts):
+                    if not ((isinstance(e, ast.Name) and e.id == name) or (isinstance(e, ast.Attribute) and e.attr == name)):
+                        continue
+                    v = n.value
+                    if isinstance(t, ast.Tuple):
+                        if isinstance(v, ast.Tuple) and len(v.elts) == len(elts):
+                            v = v.elts[k]
+                        elif isinstance(v, ast.Call) and _dotted(v.func) == "H_precompute":
+                            sites += 1
+                            continue  # H_precompute returns its own local of that name (checked as an assignment in its body)
+                        else:
+                            raise OutsideSubset(f"{modname}: `{name}` bound by an unpacking that is not followed (line {n.lineno})")
+                    if isinstance(v, ast.Constant) and v.value is None:
+                        continue
+                    if isinstance(v, ast.Call) and _dotted(v.func).split(".")[-1] == pf:
+                        sites += 1
+                        continue
+                    if (isinstance(v, ast.Name) and v.id == name) or (isinstance(v, ast.Attribute) and v.attr == name):
+                        continue  # a copy of a binding of the same name, itself checked where it is made
+                    raise OutsideSubset(f"{modname}: `{name}` is bound to `{ast.unparse(v)[:60]}` (line {n.lineno}), not to {pf}(...)")
+    if sites == 0:
+        raise OutsideSubset(f"no producer site of `{name}` found")
+    return f"{sites} binding sites checked, all `{pf}(...)` / None / H_precompute(...)"
 
 
 def _enumerate_sym_slice(st):
